@@ -7,4 +7,4 @@ Separate Extraction InternOps.x_new InternOps.x_add_namespace InternOps.x_add_pr
   Zipper.locate Access.store_cursors
   XmlSer.gen_outputs XmlSer.tokens XmlSer.serialize XmlSer.pretty_tokens XmlSer.serialize_pretty XmlSer.token_text XmlSer.serialize_write XmlSer.serialize_pretty_write
   XmlSer.serialize_xml
-  Builder.parse_document Builder.parse_fragment Builder.span_get Builder.xml_id_lookup Builder.perror_span.
+  Builder.parse_document_at Builder.parse_document Builder.parse_fragment Builder.span_get Builder.xml_id_lookup Builder.perror_span.
